@@ -275,7 +275,10 @@ pub fn publish_context(s: &str) {
 
 pub const CAP_SINGLE: usize = 1 << 30;
 pub const CAP_TOTAL: usize = 768 << 20;
-pub const RUN_TIMEOUT_MS: i32 = 6_000;
+/// CPU-time budget of one forked run (RLIMIT_CPU of the child, so machine load cannot trigger it)
+pub const RUN_CPU_LIMIT_S: u64 = 6;
+/// wall-clock backstop for a child that neither finishes nor burns CPU
+pub const RUN_TIMEOUT_MS: i32 = 240_000;
 
 fn normalise_ctx(s: &str) -> String {
     // keep the seam and the entry point ("deliver_corrupt/load_incremental"), drop the input-specific rest
@@ -314,6 +317,9 @@ pub fn execute_safe(prop: &PropDef, run_seed: u64, cfg: &Cfg, evs: &[Ev]) -> Run
     if pid == 0 {
         // child
         unsafe { libc::close(fds[0]) };
+        // the child's CPU clock starts at zero at fork(); SIGXCPU (default action: kill) at the soft limit
+        let lim = libc::rlimit { rlim_cur: RUN_CPU_LIMIT_S, rlim_max: RUN_CPU_LIMIT_S + 1 };
+        unsafe { libc::setrlimit(libc::RLIMIT_CPU, &lim) };
         SHARED_PTR.with(|c| c.set(shared.ptr as usize));
         monitor::meter_start(CAP_SINGLE, CAP_TOTAL);
         let rep = execute(prop, run_seed, cfg, evs);
@@ -372,8 +378,11 @@ pub fn execute_safe(prop: &PropDef, run_seed: u64, cfg: &Cfg, evs: &[Ev]) -> Run
         }
     }
     let ctx = shared.read();
+    let cpu_out = libc::WIFSIGNALED(status) && (libc::WTERMSIG(status) == libc::SIGXCPU || libc::WTERMSIG(status) == libc::SIGKILL) && !timed_out;
     let how = if timed_out {
-        format!("timeout: no result within {} s", RUN_TIMEOUT_MS / 1000)
+        format!("timeout: no result within {} s of wall-clock time", RUN_TIMEOUT_MS / 1000)
+    } else if cpu_out {
+        format!("timeout: no result within {RUN_CPU_LIMIT_S} s of CPU time")
     } else if libc::WIFEXITED(status) && libc::WEXITSTATUS(status) == 97 {
         "allocator cap exceeded (single request > 1 GiB or total > 768 MiB)".to_string()
     } else if libc::WIFSIGNALED(status) {
@@ -381,7 +390,7 @@ pub fn execute_safe(prop: &PropDef, run_seed: u64, cfg: &Cfg, evs: &[Ev]) -> Run
     } else {
         format!("exited with status {}", if libc::WIFEXITED(status) { libc::WEXITSTATUS(status) } else { -1 })
     };
-    let class = if timed_out {
+    let class = if timed_out || cpu_out {
         "timeout"
     } else if libc::WIFEXITED(status) && libc::WEXITSTATUS(status) == 97 {
         "alloc-cap"
